@@ -18,3 +18,15 @@ PROPS["C09"] = dict(
     ],
     fuzz=[dict(target="FuzzC09", seconds=90)],
 )
+
+PROPS["C18"] = dict(
+    pkg="c18", level="exploration",
+    technique="bounded-exhaustive enumeration + rapid random strings against a regular-expression oracle and a model registry",
+    level_text="Exploration: the accepted set is compared with the documented language (regexp + length bounds) on every string up to length 5 (quick) / 7 (thorough) over a 10-symbol boundary alphabet and on every segment-length composition at total lengths 2..38, where validity can only depend on length and segment structure; the registry is compared with a model set after each block.",
+    level_note="Trusted: Go's regexp package and the harness's model set. Assumes validity depends only on length, alphabet class and underscore structure (random byte/unicode strings probe the rest).",
+    rule="strings enumerated over {a z 0 9 _ A - space { `} up to length 5/7, all compositions of 1..38 characters into 1..5 segments with leading/trailing/doubled underscore variants, rapid random byte/unicode/near-language strings and helper-built names; non-trivial = accepted, or rejected although drawn from the right alphabet",
+    steps=[
+        dict(test="^TestC18_(Replay|ExhaustiveAlphabet|Compositions)$", quick=dict(timeout=600), thorough=dict(shards=5, timeout=1800)),
+        dict(test="^TestC18_Random$", quick=dict(checks=3000, timeout=600), thorough=dict(checks=40000, shards=8, timeout=1800)),
+    ],
+)
